@@ -5,7 +5,7 @@ import copy
 import operator
 import signal
 
-from vf.model_patterns import isnode, COLLECT, PRED, INF, iv, Inval
+from vf.model_patterns import isnode, COLLECT, PRED, INF, iv, Inval, OMIT
 
 
 class RealTimeout(Exception):
@@ -181,10 +181,12 @@ def build(x):
     if name == 'Pslide':
         return lp.Pslide([B(i) for i in x[1]], length=B(x[2]), step=B(x[3]),
                          start=x[4], wrap=x[5], repeats=x[6])
-    if name == 'Pseries':
-        return vp.Pseries(x[1], B(x[2]), x[3])
-    if name == 'Pgeom':
-        return vp.Pgeom(x[1], B(x[2]), x[3])
+    if name in ('Pseries', 'Pgeom'):
+        # omitted arguments are really left out of the call
+        names = ('start', 'step' if name == 'Pseries' else 'grow', 'length')
+        kw = {n: (B(a) if n != 'length' else a) for n, a in zip(names, x[1:])
+              if not (isinstance(a, str) and a == OMIT)}
+        return getattr(vp, name)(**kw)
     if name == 'Pcollect':
         return fp.Pcollect(COLLECT[x[1]], B(x[2]))
     if name == 'Pselect':
